@@ -297,9 +297,10 @@ def obligations(tier):
     kB = 4
     for ch in (SP.chains(2, SP.CORE) if q else SP.chains(2)):
         small = SP.inspects(ch)
-        obls.append(_pipe_obl("B/chain/%s/k=%d" % ("+".join(ch), kB if q else 6),
+        kk = kB if (q or SP.hashes(ch) or "collect" in ch) else 6
+        obls.append(_pipe_obl("B/chain/%s/k=%d" % ("+".join(ch), kk),
                               {"template": "chain", "units": list(ch), "small": small},
-                              kB if q else 6, B, flush=("collect" in ch)))
+                              kk, B, flush=("collect" in ch)))
     if not q:
         for ch in SP.chains(3, SP.SMALL_CORE):
             small = SP.inspects(ch)
